@@ -33,6 +33,38 @@ pub enum Ev {
     GenRead,
 }
 
+pub const MAX_Q: usize = 4;
+pub const MAX_ALLOC: usize = 8;
+
+/// State the C09 oracle needs, maintained incrementally (no log scans: those are expensive for CBMC).
+pub struct Live {
+    pub driver_ok: bool,
+    /// queue registered and neither unset nor reset since
+    pub q_enabled: [bool; MAX_Q],
+    /// device addresses of the descriptor and device areas registered for the queue
+    pub q_desc: [u64; MAX_Q],
+    pub q_dev: [u64; MAX_Q],
+    /// allocation ledger
+    pub a_paddr: [u64; MAX_ALLOC],
+    pub a_vaddr: [usize; MAX_ALLOC],
+    pub a_pages: [usize; MAX_ALLOC],
+    pub a_live: [bool; MAX_ALLOC],
+    pub a_n: usize,
+    pub notify_before_driver_ok: bool,
+}
+pub static mut LIVE: Live = Live {
+    driver_ok: false, q_enabled: [false; MAX_Q], q_desc: [0; MAX_Q], q_dev: [0; MAX_Q],
+    a_paddr: [0; MAX_ALLOC], a_vaddr: [0; MAX_ALLOC], a_pages: [0; MAX_ALLOC], a_live: [false; MAX_ALLOC], a_n: 0,
+    notify_before_driver_ok: false,
+};
+fn live_reset_device() {
+    unsafe {
+        LIVE.driver_ok = false;
+        let mut q = 0;
+        while q < MAX_Q { LIVE.q_enabled[q] = false; q += 1; }
+    }
+}
+
 pub struct Log {
     pub ev: [Ev; MAX_EV],
     pub n: usize,
@@ -50,7 +82,12 @@ pub fn log_reset() {
         LOG.allocs = 0;
         LOG.fail_alloc_at = 0;
         LOG.live_allocs = 0;
+        LIVE.a_n = 0;
+        LIVE.notify_before_driver_ok = false;
+        let mut i = 0;
+        while i < MAX_ALLOC { LIVE.a_live[i] = false; i += 1; }
     }
+    live_reset_device();
 }
 pub fn log_push(e: Ev) {
     unsafe {
@@ -92,13 +129,42 @@ unsafe impl Hal for KHal {
         let p = unsafe { alloc::alloc::alloc_zeroed(layout) };
         let v = NonNull::new(p).unwrap();
         let paddr = p as u64 + BOUNCE;
-        unsafe { LOG.live_allocs += 1; }
+        unsafe {
+            LOG.live_allocs += 1;
+            assert!(LIVE.a_n < MAX_ALLOC, "verif: allocation ledger overflow");
+            let k = LIVE.a_n;
+            LIVE.a_paddr[k] = paddr; LIVE.a_vaddr[k] = p as usize; LIVE.a_pages[k] = pages; LIVE.a_live[k] = true;
+            LIVE.a_n += 1;
+        }
         log_push(Ev::Alloc(paddr, p as usize, pages, dir_code(direction)));
         (paddr, v)
     }
     unsafe fn dma_dealloc(paddr: PhysAddr, vaddr: NonNull<u8>, pages: usize, _access_platform: bool) -> i32 {
         log_push(Ev::Dealloc(paddr, vaddr.as_ptr() as usize, pages));
-        unsafe { LOG.live_allocs -= 1; }
+        unsafe {
+            LOG.live_allocs -= 1;
+            // C06/C09: returned exactly once, with the address, pointer and page count it was allocated with
+            let mut found = false;
+            let mut k = 0;
+            while k < MAX_ALLOC {
+                if k < LIVE.a_n && LIVE.a_live[k] && LIVE.a_paddr[k] == paddr {
+                    assert!(LIVE.a_vaddr[k] == vaddr.as_ptr() as usize && LIVE.a_pages[k] == pages,
+                            "C09: dma_dealloc with a pointer/page count different from the allocation's");
+                    LIVE.a_live[k] = false;
+                    found = true;
+                }
+                k += 1;
+            }
+            assert!(found, "C09: dma_dealloc of a region that is not a live allocation (double free or wrong address)");
+            // C09: no queue memory released while the device is live on that queue
+            let mut q = 0;
+            while q < MAX_Q {
+                if LIVE.q_enabled[q] && (LIVE.q_desc[q] == paddr || LIVE.q_dev[q] == paddr) {
+                    assert!(!LIVE.driver_ok, "C09: queue memory released while the device is live on the queue (after DRIVER_OK, queue not disabled, device not reset)");
+                }
+                q += 1;
+            }
+        }
         let layout = alloc::alloc::Layout::from_size_align(pages * PAGE_SIZE, PAGE_SIZE).unwrap();
         unsafe { alloc::alloc::dealloc(vaddr.as_ptr(), layout) };
         0
@@ -152,15 +218,26 @@ impl Transport for KTransport {
     fn read_device_features(&mut self) -> u64 { log_push(Ev::ReadFeatures); self.device_features }
     fn write_driver_features(&mut self, f: u64) { log_push(Ev::WriteFeatures(f)); }
     fn max_queue_size(&mut self, q: u16) -> u32 { log_push(Ev::MaxSize(q)); self.max_queue_size }
-    fn notify(&mut self, q: u16) { log_push(Ev::Notify(q)); }
+    fn notify(&mut self, q: u16) { unsafe { if !LIVE.driver_ok { LIVE.notify_before_driver_ok = true; } } log_push(Ev::Notify(q)); }
     fn get_status(&self) -> DeviceStatus { DeviceStatus::from_bits_retain(self.status) }
-    fn set_status(&mut self, s: DeviceStatus) { self.status = s.bits(); log_push(Ev::SetStatus(s.bits())); }
+    fn set_status(&mut self, s: DeviceStatus) {
+        self.status = s.bits();
+        if s.bits() == 0 { live_reset_device(); }
+        unsafe { LIVE.driver_ok = s.bits() & 4 != 0; }
+        log_push(Ev::SetStatus(s.bits()));
+    }
     fn set_guest_page_size(&mut self, s: u32) { log_push(Ev::GuestPageSize(s)); }
     fn requires_legacy_layout(&self) -> bool { self.legacy }
     fn queue_set(&mut self, q: u16, size: u32, d: PhysAddr, a: PhysAddr, u: PhysAddr) {
+        unsafe {
+            if (q as usize) < MAX_Q { LIVE.q_enabled[q as usize] = true; LIVE.q_desc[q as usize] = d; LIVE.q_dev[q as usize] = u; }
+        }
         log_push(Ev::QueueSet(q, size, d, a, u));
     }
-    fn queue_unset(&mut self, q: u16) { log_push(Ev::QueueUnset(q)); }
+    fn queue_unset(&mut self, q: u16) {
+        unsafe { if (q as usize) < MAX_Q { LIVE.q_enabled[q as usize] = false; } }
+        log_push(Ev::QueueUnset(q));
+    }
     fn queue_used(&mut self, q: u16) -> bool { log_push(Ev::QueueUsed(q)); self.queue_used }
     fn ack_interrupt(&mut self) -> InterruptStatus { log_push(Ev::AckInterrupt); InterruptStatus::empty() }
     fn read_config_generation(&self) -> u32 { log_push(Ev::GenRead); self.generation }
@@ -177,4 +254,23 @@ impl Transport for KTransport {
         self.config[offset..end].copy_from_slice(value.as_bytes());
         Ok(())
     }
+}
+
+/// Like the real MMIO/PCI transports, the model transport resets the device when dropped.
+impl Drop for KTransport {
+    fn drop(&mut self) {
+        live_reset_device();
+        log_push(Ev::SetStatus(0));
+    }
+}
+
+/// all DMA regions returned
+pub fn ledger_empty() -> bool {
+    let mut k = 0;
+    let mut ok = true;
+    while k < MAX_ALLOC {
+        unsafe { if k < LIVE.a_n && LIVE.a_live[k] { ok = false; } }
+        k += 1;
+    }
+    ok
 }
